@@ -301,3 +301,49 @@ prop("C06",
      "Bounded threads/ops; futures inspected with wait_for(0) only.",
      "stateless model checking of the implementation: deviation-bounded DFS over a controlled scheduler",
      "DESIGN.md 4/C06")
+
+
+prop("C16",
+     [dict(name="C16", src="C16.cpp", cxxflags=LOCK_FLAGS, deadline=dict(quick=100, thorough=1200))],
+     "Sequential part: every operation sequence up to depth 5 (6 thorough) over {add(new), add(new, keep external "
+     "owner), add(same object again), drop external owner, destroyObjects(), destroyObjects(0/10/250 ms), size()} "
+     "on DelayedDestructor and DelayedDestructorSingleThread, followed by destruction of the container and release "
+     "of the remaining owners, compared after every step with a reference multiset (results of destroyObjects / "
+     "size, which objects are destroyed, callback counts); short sequences additionally with destructors and "
+     "callbacks that re-enter the container (size / add / destroyObjects). Concurrent part: " + SCHED_RULE +
+     " Programs: pairs and triples of roles (adders, owners dropping references, destroyObjects callers incl. timed, "
+     "size pollers) with plain and re-entering destructors/callbacks; every try_lock_for may time out whenever the "
+     "lock is held; sleeps are virtual.",
+     "Oracles: per-object destructor counter (== 1 exactly, never while an external owner is registered), callback "
+     "ran at most once and before the destructor for every object destroyed inside a destroyObjects call, "
+     "self-deadlock detection on the modelled non-recursive timed mutex when a destructor/callback re-enters "
+     "(= destructor ran under the internal lock), failure result only after a time-out fired, accounting at "
+     "quiescence (nothing lost or duplicated), everything destroyed once after container destruction and owner "
+     "release, arena leak check, race detector.",
+     A_COMMON,
+     "Exhaustive enumeration of operation sequences against a reference model plus exhaustive deviation-bounded "
+     "exploration (with time-outs) of concurrent adders / droppers / destroyers over the real DelayedDestructor.",
+     "Bounded depth/threads/ops; re-entry is disabled while the container itself is being destroyed (client misuse).",
+     "explicit enumeration of operation sequences + stateless model checking (deviation-bounded DFS) of the implementation",
+     "DESIGN.md 4/C16")
+
+
+prop("C17",
+     [dict(name="C17", src="C17.cpp", cxxflags=LOCK_FLAGS, deadline=dict(quick=100, thorough=1200))],
+     "Sequential part: every sequence up to depth 3 (4 thorough) over 19 mutating calls (addObject x3 names, "
+     "addObject+type x3, addType x3, copyObject x3, removeObject(name) x3, removeObject(predicate never / id==1 / "
+     "id==2 / always)); names include one longer than the small-string buffer; after every step the whole query "
+     "surface (findObject by name for every name, checkObjectType for every name and type, getObjects, empty, "
+     "findObject(pred), findObject(pred,type)) is compared with a reference map; tag queries on names that received "
+     "addType while not stored are skipped (unspecified). Concurrent part: " + SCHED_RULE + " Programs: 2 clients "
+     "with <=2 calls and 3 clients with 1 call over 13 calls.",
+     "Oracles: reference-map agreement; quarantine arena (std::map nodes are allocated through the replaced "
+     "operator new, so any instrumented read of an erased node is reported); brute-force linearizability of "
+     "concurrent histories against the reference map; an object returned to a caller is used afterwards (id, check "
+     "word, liveness flag) while other clients remove it; objects freed once; race detector.",
+     A_COMMON,
+     "Exhaustive enumeration of call sequences against a reference map with a memory-safety oracle, plus "
+     "exhaustive deviation-bounded exploration of concurrent clients with a linearizability check.",
+     "Bounded depth/threads/ops/name domain.",
+     "explicit enumeration of operation sequences + stateless model checking (deviation-bounded DFS) with linearizability checking",
+     "DESIGN.md 4/C17")
